@@ -1,6 +1,7 @@
 import AkVerif.Lemmas.LLC03
 import AkVerif.Lemmas.LLSession
 import AkVerif.Lemmas.LLTransfer2
+import AkVerif.Lemmas.LLCtorRec
 /-!
 # C03 — left-recursive grammars are rejected; accepted grammars always terminate
 
@@ -68,6 +69,29 @@ theorem rejected_user_cyclic (inp : CtorIn) (U G : Prods Sym) (S NG NU : List Sy
     (hrec : recCheck G (sadd (tokenNames inp) endSym) NG (sortedKeys G) = .error .grammarIsRecursive) :
     ∃ X, Plus (Reach1 U NU) X X :=
   LL.rejected_user_cyclic hD hU hF hNG hNU hrec
+
+/-- **The first sentence of the property, at the level of the constructor**: when the stages before the
+recursion check succeed (terminal names without `__`, skip set, `_create_productions`,
+`_factorize_productions`, `_verify_grammar_structure_part1`, nullables, FIRST, FOLLOW, table — their
+failures are other exception classes), the constructor raises `GrammarIsRecursive` **iff** some symbol
+of the productions the user wrote reaches itself without consuming a token (`NU` = least nullable set
+of the user's dictionary), and it returns a parser iff there is no such symbol. Both
+`smart_factorization` values, every assignment of names. -/
+theorem ctor_recursive_iff (inp : CtorIn) (skip : List Sym) (U G : Prods Sym) (S NG NU : List Sym)
+    (first follow : SetMap Sym) (table : Table Sym)
+    (hD : (tokenNames inp).any (fun t => hasDunder t.name) = false)
+    (hskip : skipSet inp (tokenNames inp) = .ok skip)
+    (hU : createProds 0 inp.prods [] = .ok U)
+    (hF : factorize (tokenNames inp) U inp.smart = .ok (G, S))
+    (hV : verifyPart1 (sadd (tokenNames inp) endSym) (parseSym inp.start) G = .ok ())
+    (hN : nullables G = .ok NG)
+    (hFi : firstSets (sadd (tokenNames inp) endSym) NG G = .ok first)
+    (hFo : followSets (sadd (tokenNames inp) endSym) NG first G (parseSym inp.start) endSym = .ok follow)
+    (hT : mkTable (sadd (tokenNames inp) endSym) NG first follow G = .ok table)
+    (hNU : nullables U = .ok NU) :
+    (construct inp = .error .grammarIsRecursive ↔ ∃ X, Plus (Reach1 U NU) X X) ∧
+    ((∃ P, construct inp = .ok P) ↔ ¬ ∃ X, Plus (Reach1 U NU) X X) :=
+  construct_rec_iff hD hskip hU hF hV hN hFi hFo hT hNU
 
 /-- **Stack bound** (generic): under the hypotheses of the termination theorem, a stack satisfying
 the invariant has at most `(|tokens| + 1) · (R + 1)` frames, `R` bounding the ranks of its symbols:
